@@ -83,15 +83,20 @@ func init() {
 	for _, t := range oddKinds {
 		mutOps = append(mutOps, "iri-kind-"+t)
 	}
-	mutOps = append(mutOps, "own-inbox", "own-outbox", "own-actor", "own-followers", "iri-pagedcycle", "iri-public")
+	mutOps = append(mutOps, "own-inbox", "own-outbox", "own-actor", "own-followers", "iri-pagedcycle", "iri-public", "iri-selfpage")
 }
 
 // a remote collection whose pages point at each other for ever (first -> page 1 -> next page 2 -> next page 1 ...)
 const iriPaged = "https://" + hostR + "/hostile/paged"
 
+// a remote page that lists itself among its own items (one recursive member only: with a positive recursion limit d the
+// resolution is a chain of d fetches, not a tree)
+const iriSelfPage = "https://" + hostR + "/hostile/selfpage"
+
 func pagedCycleDocs() []DocSpec {
 	p1, p2 := iriPaged+"?page=1", iriPaged+"?page=2"
 	return []DocSpec{
+		{iriSelfPage, mustJSON(J{"@context": asCtx, "type": "CollectionPage", "id": iriSelfPage, "partOf": iriPaged, "items": []string{"https://" + hostR + "/u/dave", iriSelfPage}})},
 		{iriPaged, mustJSON(J{"@context": asCtx, "type": "OrderedCollection", "id": iriPaged, "totalItems": 2, "first": p1})},
 		{p1, mustJSON(J{"@context": asCtx, "type": "OrderedCollectionPage", "id": p1, "partOf": iriPaged, "next": p2, "orderedItems": []string{"https://" + hostR + "/u/dave"}})},
 		{p2, mustJSON(J{"@context": asCtx, "type": "OrderedCollectionPage", "id": p2, "partOf": iriPaged, "next": p1, "prev": p1, "orderedItems": []string{"https://" + hostR + "/u/erin"}})},
@@ -136,6 +141,8 @@ func setPath(root interface{}, p jpath, op string) interface{} {
 		repl = iriPaged
 	case "iri-public":
 		repl = publicIRI
+	case "iri-selfpage":
+		repl = iriSelfPage
 	default:
 		if strings.HasPrefix(op, "iri-kind-") {
 			repl = iriKind(strings.TrimPrefix(op, "iri-kind-"))
@@ -621,7 +628,7 @@ func driveC11(c *DriveCtx, r *Rng, k int) {
 func init() {
 	register(&PropDef{
 		ID: "C11", Level: "exploration", Engine: "fedsim",
-		Rule: "case = one scenario of the side-effect corpus (every entry point, every handled activity type, delivery, forwarding, GETs) with one hostile input: a structure-aware mutation (each member down to depth 4 removed, nulled, emptied to [] / {} / \"\", replaced by a number, boolean, nested array, array wrap, object without id, relative reference, or the IRI of a missing / ill-typed / incomplete / non-object document) or raw byte damage (truncation, bit flip, whole-document replacement) applied to the request body, to a document returned by Transport.Dereference, or to a value returned by Database.Get/Followers/Following/Liked/GetInbox/GetOutbox; the well-formed body in its vocabulary-prefixed spelling (@context maps the namespace to an alias, alias:member, objects doubled), alone or further mutated; a clean follow-up request after the hostile one in a third to a half of the runs (what the hostile input left behind must not keep a later request from returning); plus per-run knobs (missing stored values answered by error or (nil, nil), Social-only / Federating-only actors, small recursion limits). Oracle = recover() around every task (any panic unwinding through the library is a violation), deadlock detection and a 20000-step budget ('fails to return'). distinct = distinct (scenario incl. mutation, event sequence).",
+		Rule: "case = one scenario of the side-effect corpus (every entry point, every handled activity type, delivery, forwarding, GETs) with one hostile input: a structure-aware mutation (each member down to depth 4 removed, nulled, emptied to [] / {} / \"\", replaced by a number, boolean, nested array, array wrap, object without id, relative reference, or the IRI of a missing / ill-typed / incomplete / non-object document, of a paged collection whose pages refer to each other for ever, or of a page that lists itself) or raw byte damage (truncation, bit flip, whole-document replacement) applied to the request body, to a document returned by Transport.Dereference, or to a value returned by Database.Get/Followers/Following/Liked/GetInbox/GetOutbox; the well-formed body in its vocabulary-prefixed spelling (@context maps the namespace to an alias, alias:member, objects doubled), alone or further mutated; a clean follow-up request after the hostile one in a third to a half of the runs (what the hostile input left behind must not keep a later request from returning); plus per-run knobs (missing stored values answered by error or (nil, nil), Social-only / Federating-only actors, small recursion limits). Oracle = recover() around every task (any panic unwinding through the library is a violation), deadlock detection and a 20000-step budget ('fails to return'). distinct = distinct (scenario incl. mutation, event sequence).",
 		QuickCases: 12000, QuickBudgetS: 150, ThoroughBudgetS: 600,
 		Drive: driveC11,
 		Assumptions: []string{"coverage-guided fuzzing of the JSON decoder on arbitrary bytes is another technique and is not part of this check: the decoder is reached only through the three seams (request body, dereferenced document, stored value)",
